@@ -343,6 +343,7 @@ pub fn evaluate(sc: &CacheSc, h: &Hist, out: &RunOut) -> Vec<Violation> {
 
   // ---- C14 (system view): the policy contract as exercised by the cache ---------------------
   policy_contract(sc, h, &mut vs);
+  resident_entries_known_to_policy(sc, h, &mut vs);
   vs
 }
 
@@ -392,6 +393,65 @@ pub fn accounting_rules(sc: &CacheSc, h: &Hist, may_hide: bool, vs: &mut Vec<Vio
         }
       }
     }
+  }
+}
+
+/// C13, the enforceability half of the capacity bound: at quiescence every resident entry of a
+/// bounded cache is known to its shard's policy. `evict` can only name keys the policy tracks, so
+/// an entry it has forgotten (its `on_remove` arrived after the re-admission of the same key, its
+/// admission never happened) stays resident whatever the pressure: the bound is then enforced on
+/// the rest only, and not at all once the forgotten entries outweigh it. Judged on the proxy's
+/// call log (recorded in effective order) up to the moment the drain audit began.
+fn resident_entries_known_to_policy(sc: &CacheSc, h: &Hist, vs: &mut Vec<Violation>) {
+  if sc.default_policy || sc.policy == PolicyKind::Null || sc.capacity.is_none() {
+    return;
+  }
+  let Some(fin) = &h.fin else { return };
+  if !fin.settled || fin.audit_at == 0 {
+    return;
+  }
+  // key -> Some(true) tracked / Some(false) not tracked / None = cannot tell (a rejected re-admission)
+  let mut state: BTreeMap<(usize, u8), Option<bool>> = BTreeMap::new();
+  for p in h.pol.iter().filter(|p| p.at < fin.audit_at) {
+    match &p.call {
+      PolCall::Admit { key, decision, victims, .. } => {
+        for v in victims {
+          state.insert((p.shard, *v), Some(false));
+        }
+        state.insert((p.shard, *key), if decision == "Reject" { None } else { Some(true) });
+      }
+      PolCall::Remove { key } => {
+        state.insert((p.shard, *key), Some(false));
+      }
+      PolCall::Evict { victims, .. } => {
+        for v in victims {
+          state.insert((p.shard, *v), Some(false));
+        }
+      }
+      PolCall::Clear => {
+        let shard = p.shard;
+        for (k, v) in state.iter_mut() {
+          if k.0 == shard {
+            *v = Some(false);
+          }
+        }
+      }
+      PolCall::Access { .. } => {}
+    }
+  }
+  for (k, id, _, cost) in &fin.residents {
+    // the shard of a key is not visible from here: the key is fine if any shard's policy tracks it
+    let views: Vec<Option<bool>> = state.iter().filter(|((_, kk), _)| kk == k).map(|(_, v)| *v).collect();
+    if views.iter().any(|v| *v == Some(true) || v.is_none()) {
+      continue;
+    }
+    vs.push(viol(
+      sc,
+      "C13",
+      "resident_entry_unknown_to_policy",
+      &[],
+      format!("at quiescence key {k} (value {id}, cost {cost}) is resident in a cache of capacity {:?} but no shard policy tracks it (last policy calls for it: {:?}): it can never be evicted", sc.capacity, h.pol.iter().filter(|p| p.at < fin.audit_at && matches!(&p.call, PolCall::Admit { key, .. } | PolCall::Remove { key } if key == k)).map(|p| (&p.call, p.at)).collect::<Vec<_>>().iter().rev().take(3).collect::<Vec<_>>()),
+    ));
   }
 }
 
